@@ -59,6 +59,7 @@ func phaseA(r *ev.Run, rng *rand.Rand) {
 	s.SetStorage(e.store)
 	g := &gen{rng: rng}
 
+	firstPersist(e)
 	if !e.consistent() {
 		r.Inconclusive("direct phase: the first update was not stored")
 		return
@@ -88,6 +89,7 @@ func phaseA(r *ev.Run, rng *rand.Rand) {
 		r.Count("directed_cases", 1)
 	}
 	timed("list-grid", e.listGrids)
+	timed("single-field", e.fieldGridDirect)
 	timed("get-edit-set", e.getEditSet)
 	timed("concurrent-direct", func() { e.concurrentDirect(g, r.Pick(12, 100)) })
 }
@@ -188,8 +190,12 @@ func phaseB(r *ev.Run, rng *rand.Rand) {
 		timed("list-grid-http", ru.httpListGrids)
 	}
 	if ru.ready() {
+		timed("single-field-http", ru.fieldGridHTTP)
+	}
+	if ru.ready() {
 		timed("concurrent-running", func() { ru.concurrentRunning(r.Thorough()) })
 	}
+	timed("restart", ru.restart)
 }
 
 func main() {
